@@ -331,9 +331,13 @@ Definition step (cfg : rcfg) (st : rstate) (o : op) : sres :=
             match d with
             | DUnmodelled => SUnmodelled
             | _ =>
-                (* keep only the directly written frames of this step, unless the send task already existed *)
+                (* keep only the directly written frames of this step: the handler does not yield between putting
+                   a frame on the subscription queue and reading the disconnect, so the send task (even if it
+                   exists already) is cancelled before it sends what was queued in this step *)
                 let fresh := firstn (length (c_out x1) - length (c_out x)) (c_out x1) in
-                let kept := if c_sender x then fresh
+                (* ... unless the connection is throttled: then the REQ branch sleeps once before the next read,
+                   and an already existing send task drains the queue meanwhile *)
+                let kept := if (0 <? c_throttle x) && c_sender x then fresh
                             else List.filter (fun f => match f with FrEvent _ _ | FrEose _ => false | _ => true end) fresh in
                 let x2 := {| c_subs := c_subs x1; c_out := kept ++ c_out x; c_open := c_open x1; c_throttle := c_throttle x1;
                              c_sender := c_sender x1; c_deferred := [] |} in
